@@ -14,7 +14,8 @@ bookkeeping (`to_dense`, `type`, `to`, `unsqueeze(-1)`, `squeeze(-1)`, `expand`)
 Primitives stay abstract: `self._cholesky_factor(E)` is a parameter `L` (contract `L Lᵀ = E`, E emitted as `*CholArg`),
 `X.root_decomposition().root` a parameter `R` (contract `R Rᵀ = X`), solves multiply by parameters `Li = L⁻¹`,
 `Ki = (L Lᵀ)⁻¹`.  Branch selection: eval mode, Gaussian q(u) (and the point-mass variant of the whitened strategy),
-Cholesky path, trace_mode off, skip_posterior_variances off; the `torch.equal(x, Z)` shortcut and the training-mode
+Cholesky path, skip_posterior_variances off; both the default (lazy) and the `settings.trace_mode` branch of the
+whitened covariance; the `torch.equal(x, Z)` shortcut and the training-mode
 prior cache are recorded separately.  Anything else raises `TranslateError` (a broken tie).
 """
 import ast
@@ -35,7 +36,7 @@ GUARDS = {
     "self.training": "training",
     "not self.training and settings.skip_posterior_variances.on()": False,
     "settings.fast_computations.log_prob.off() or num_induc <= settings.max_cholesky_size.value()": True,
-    "trace_mode.on()": False,
+    "trace_mode.on()": "trace",
     "L.shape != induc_induc_covar.shape": False,
     "torch.equal(x, inducing_points)": None,
 }
@@ -48,10 +49,10 @@ def src(n):
 class Exec:
     """Symbolic executor for one method body."""
 
-    def __init__(self, cls_prior=None, has_covar=True, training=False):
+    def __init__(self, cls_prior=None, has_covar=True, training=False, trace=False):
         self.env = {"inducing_values": ("var", "m"), "variational_inducing_covar": ("var", "S") if has_covar else None,
                     "x": ("opaque",), "inducing_points": ("opaque",)}
-        self.flags = {"has_covar": has_covar, "training": training}
+        self.flags = {"has_covar": has_covar, "training": training, "trace": trace}
         self.cls_prior = cls_prior          # IR of self.prior_distribution.lazy_covariance_matrix
         self.chol_args = []                 # arguments of self._cholesky_factor
         self.cache_writes = {}
@@ -90,7 +91,7 @@ class Exec:
                 raise TranslateError(f"unrecognised guard: if {g}")
             take = GUARDS[g]
             if take is None:                                         # the x == Z shortcut
-                sub = Exec(self.cls_prior, self.flags["has_covar"], self.flags["training"])
+                sub = Exec(self.cls_prior, self.flags["has_covar"], self.flags["training"], self.flags["trace"])
                 sub.env = dict(self.env)
                 sub.run(st.body)
                 if sub.result is None:
@@ -352,6 +353,11 @@ def translate(repo):
         out["wMean" + tag], out["wCov" + tag] = ex.result[1], ex.result[2]
         out["wCholArg"] = ex.chol_args[0]
         out["wInterp"] = ex.env["interp_term"]
+        ext_ = Exec(cls_prior=wp[2], has_covar=has, trace=True)      # the settings.trace_mode branch
+        ext_.run(fwd.body)
+        if ext_.result is None or ext_.result[0] != "mvn":
+            raise TranslateError("VariationalStrategy.forward (trace_mode): unexpected shape of the result")
+        out["wMeanTrace" + tag], out["wCovTrace" + tag] = ext_.result[1], ext_.result[2]
     # ---- unwhitened
     up = _prior(ut, "UnwhitenedVariationalStrategy")
     out["uPriorMean"], out["uPriorCov"] = up[1], up[2]
@@ -437,6 +443,9 @@ variable {{α : Type}} [Field α] {{M n r : Nat}}
 {d('wCov', '`predictive_covar` (Gaussian q(u); trace_mode off)', 'DMat n n α')}
 {d('wMeanDelta', '`predictive_mean`, point-mass q(u)', 'DMat n 1 α')}
 {d('wCovDelta', '`predictive_covar`, point-mass q(u) (`variational_inducing_covar is None`)', 'DMat n n α')}
+{d('wMeanTrace', '`predictive_mean` under `settings.trace_mode`', 'DMat n 1 α')}
+{d('wCovTrace', '`predictive_covar` under `settings.trace_mode` (dense arithmetic branch)', 'DMat n n α')}
+{d('wCovTraceDelta', '`predictive_covar` under `settings.trace_mode`, point-mass q(u)', 'DMat n n α')}
 /-! ### UnwhitenedVariationalStrategy -/
 
 {d('uCholArg', 'argument of `self._cholesky_factor` in `UnwhitenedVariationalStrategy.forward`', 'DMat M M α')}
@@ -463,11 +472,33 @@ end Gen.VariationalAlgebra
 """
 
 
+def _elaborates(text, out_path):
+    """Type-check the candidate generated file with Lean *before* it replaces the current one: a source change that
+    leads to an ill-scoped / ill-typed term (e.g. a dropped transpose -> dimension mismatch) is a broken tie
+    (`TranslateError`), never a generated module that does not build."""
+    import subprocess
+    lean_dir = os.path.dirname(os.path.dirname(os.path.dirname(os.path.abspath(out_path))))
+    os.makedirs(os.path.join(lean_dir, ".audit"), exist_ok=True)
+    cand = os.path.join(lean_dir, ".audit", os.path.basename(out_path)[:-5] + "Candidate.lean")
+    with open(cand, "w") as fh:
+        fh.write(text)
+    try:
+        p = subprocess.run(["lake", "env", "lean", cand], cwd=lean_dir, capture_output=True, text=True, timeout=600)
+    finally:
+        os.remove(cand)
+    errs = [l for l in (p.stdout + p.stderr).split("\n") if "error" in l]
+    return p.returncode == 0 and not errs, "\n".join(errs[:5])
+
+
 def generate(repo, out_path):
     t = translate(repo)
     text = render(t)
     old = open(out_path).read() if os.path.exists(out_path) else None
     if old != text:
+        ok, errs = _elaborates(text, out_path)
+        if not ok:
+            raise TranslateError("generated definitions do not elaborate (ill-scoped or ill-typed term for the current "
+                                 "source; the previous generated file is kept):\n" + errs)
         tmp = out_path + ".tmp"
         with open(tmp, "w") as fh:
             fh.write(text)
